@@ -15,8 +15,8 @@ the comparison or of the `range` bounds changes `within_real` / `budget_eq`.
 What one loop body does to the unit (caches, sub-units, hook evaluation) is the parameter
 `step : S → S × Except Exc (List ℝ)` — the state it leaves (also when it raises) and the vector of numeric root-hook
 results.  All theorems hold for EVERY `step`, every state type, every carried state (`_old_results`, out profile present,
-`S`), every precision and every iteration limit; where a theorem needs more it says so (`resolve_within_prec`: the
-persisted results follow one orbit whose consecutive differences shrink by a factor `q ≤ 1/2`; `abort_then_retry_eq_fresh`:
+`S`), every precision and every iteration limit; where a theorem needs more it says so (`resolve_within_prec_partial`: the
+persisted results follow one orbit whose consecutive differences shrink by a factor `q ≤ 1/2`; `abort_then_retry_eq_fresh_partial`:
 the failing body leaves the state where it found it).
 -/
 
@@ -32,7 +32,8 @@ theorem loop_shape_as_modelled : loop_shape =
       testVars := ["cur", "_old_results", "iteration_precision"], testAll := true,
       onBreak := ["log-info(i)", "break"], onExhaustion := "warn",
       epilogue := ["copy-out", "post-processors", "timer", "log", "return"],
-      oldInit := "nan", initSolve := ["pre-processors", "in_profile", "out_profile"], outProfile := "create-if-absent",
+      oldInit := "nan", initSolve := ["pre-processors", "in_profile", "out_profile"],
+      outProfile := "create-if-absent-else-hand-over",
       evalOrder := ["in_profile", "out_profile", "self"], concatOrder := ["in_profile", "self", "out_profile"],
       resultOverrides := [("SymmetricRollPass", ["super", "roll"]), ("TwoRollPass", ["super", "roll"])],
       cacheOverrides := [("BaseRollPass", ["super", "roll.reevaluate", "clear:_contour_lines"]),
@@ -54,6 +55,9 @@ theorem within_real (p c o : ℝ) : within p c o = true ↔ |c - o| ≤ |o| * p 
 theorem allQ_true : allQ = true := rfl
 
 theorem reusesOut_true : reusesOut = true := by decide
+
+/-- `init_solve` has the `else:` branch that brings a re-used out profile up to date with the incoming profile -/
+theorem handsOver_true : handsOver = true := by decide
 
 /-- defaults of `iteration_precision` / `max_iteration_count` (unit/hookimpls.py through config.py) -/
 theorem defaults : defaultMaxIter = 100 ∧ (defaultPrec : ℝ) = 1 / 1000 := by
@@ -369,13 +373,13 @@ example : (SolveGen.solve (playback [.ok [1], .ok [2], .ok [3]]) 5 (1 / 1000)
     (SolveGen.solve (playback [.ok [1], .ok [2], .ok [3]]) 7 (1 / 1000) (Carried.fresh 0)).carried :=
   (resolve_continues _ 3 5 (by norm_num) (by norm_num) _ (Carried.fresh 0) example_warned.1).1
 
-/-- **resolve_within_prec** — the persisted results follow one orbit `x 0, x 1, …` (a solve continues where the last
+/-- **resolve_within_prec_partial** — the persisted results follow one orbit `x 0, x 1, …` (a solve continues where the last
     one stopped; vectors of one length `n > 0`), and consecutive differences shrink component-wise by a factor `q ≤ 1/2`
     (explicit contractivity hypothesis; `(x k).getD j 0` is component `j`).  If the first solve of the fresh unit ended quietly
     with the result `x i`, then `i ≥ 2`, and a second solve — whatever its limit, however it ends — returns a result `x i'`,
     `i' ≥ i`, that agrees with the first within the precision, component by component, relative to the iterate `x (i−1)`
     the first solve had compared with. -/
-theorem resolve_within_prec (x : ℕ → List ℝ) (n : ℕ) (hlen : ∀ k, (x k).length = n) (q p : ℝ) (hq0 : 0 ≤ q) (hq : q ≤ 1 / 2)
+theorem resolve_within_prec_partial (x : ℕ → List ℝ) (n : ℕ) (hlen : ∀ k, (x k).length = n) (q p : ℝ) (hq0 : 0 ≤ q) (hq : q ≤ 1 / 2)
     (hcontr : ∀ k j, j < n →
       |(x (k + 2)).getD j 0 - (x (k + 1)).getD j 0| ≤ q * |(x (k + 1)).getD j 0 - (x k).getD j 0|)
     (hn : 0 < n) (m m' : ℕ)
@@ -438,7 +442,7 @@ noncomputable def halving (k : ℕ) : List ℝ := [2 + (1 / 2) ^ k]
 /-- non-vacuity: precision 1/10, the first solve (limit 3) stops quietly at `x 2 = 2.25` (|2.25 − 2.5| = 0.25 ≤ 2.5/10) -/
 example : ∃ i i', 2 ≤ i ∧ i ≤ i' ∧
     ∀ j, j < 1 → |(halving i').getD j 0 - (halving i).getD j 0| ≤ |(halving (i - 1)).getD j 0| * (1 / 10) := by
-  obtain ⟨i, i', _, _, _, _, h2, hle, _, h⟩ := resolve_within_prec halving 1 (fun _ => rfl) (1 / 2) (1 / 10) (by norm_num) (le_refl _)
+  obtain ⟨i, i', _, _, _, _, h2, hle, _, h⟩ := resolve_within_prec_partial halving 1 (fun _ => rfl) (1 / 2) (1 / 10) (by norm_num) (le_refl _)
     (by
       intro k j hj
       simp only [halving, List.getD_cons_zero, Nat.lt_one_iff.mp hj]
@@ -453,7 +457,7 @@ example : ∃ i i', 2 ≤ i ∧ i ≤ i' ∧
       norm_num)
   exact ⟨i, i', h2, hle, h⟩
 
-/-- `resolve_within_prec` is the provable PART of "solving again gives results within the precision" (it carries the
+/-- `resolve_within_prec_partial` is the provable PART of "solving again gives results within the precision" (it carries the
     contractivity hypothesis).  The FULL statement (no hypothesis on how the results evolve): whenever the first solve of a fresh unit ends quietly,
     a second solve returns a result within the precision of the first -/
 def ResolveFull : Prop :=
@@ -512,11 +516,11 @@ example : ∃ k, k = (SolveGen.solve (playback [.ok [1], .error .zeroDivisionErr
   obtain ⟨k, _, hk, _, hw, _⟩ := abort_leaves_usable _ 100 (1 / 1000) (Carried.fresh 0) _ example_abort
   exact ⟨k, hk, hw⟩
 
-/-- **abort_then_retry_eq_fresh** — if the failing loop body left the state where it found it, and the repaired body does
+/-- **abort_then_retry_eq_fresh_partial** — if the failing loop body left the state where it found it, and the repaired body does
     what the faulty one did wherever that one succeeded, then solving again after the abort ends in exactly the state,
     with exactly the outcome, of ONE un-aborted solve of the repaired unit with the joint budget; the vectors compared
     are the same, in the same order. -/
-theorem abort_then_retry_eq_fresh (step step' : S → S × Except Exc (List ℝ))
+theorem abort_then_retry_eq_fresh_partial (step step' : S → S × Except Exc (List ℝ))
     (hagree : ∀ s v, (step s).2 = .ok v → step' s = step s) (m m' : ℕ) (hm' : 1 ≤ m') (p : ℝ) (c : Carried ℝ S) (e : Exc)
     (he : (SolveGen.solve step m p c).exc = some e)
     (hunch : ∀ k, k = (SolveGen.solve step m p c).iterations →
@@ -557,14 +561,14 @@ theorem abort_then_retry_eq_fresh (step step' : S → S × Except Exc (List ℝ)
 def faulty : ℕ → ℕ × Except Exc (List ℝ) := fun k => if k = 1 then (1, .error .zeroDivisionError) else (k + 1, .ok [1])
 def repaired : ℕ → ℕ × Except Exc (List ℝ) := fun k => (k + 1, .ok [1])
 
-/-- non-vacuity: all hypotheses of `abort_then_retry_eq_fresh` hold for `faulty` / `repaired` -/
+/-- non-vacuity: all hypotheses of `abort_then_retry_eq_fresh_partial` hold for `faulty` / `repaired` -/
 example : ∃ k, (SolveGen.solve repaired 100 (1 / 1000) (SolveGen.solve faulty 100 (1 / 1000) (Carried.fresh 0)).carried).carried =
     (SolveGen.solve repaired (k + 100) (1 / 1000) (Carried.fresh 0)).carried := by
   have he : (SolveGen.solve faulty 100 (1 / 1000) (Carried.fresh 0)).exc = some .zeroDivisionError := by
     rw [solve_eq]; simp [Solve.solve, Carried.fresh, loop, faulty, test, quant]
   have hit : (SolveGen.solve faulty 100 (1 / 1000) (Carried.fresh 0)).iterations = 1 := by
     rw [solve_eq]; simp [Solve.solve, Carried.fresh, loop, faulty, test, quant]
-  obtain ⟨k, _, h, _⟩ := abort_then_retry_eq_fresh faulty repaired
+  obtain ⟨k, _, h, _⟩ := abort_then_retry_eq_fresh_partial faulty repaired
     (fun s _ h => by
       unfold faulty at h ⊢
       unfold repaired
@@ -576,6 +580,104 @@ example : ∃ k, (SolveGen.solve repaired 100 (1 / 1000) (SolveGen.solve faulty 
       rw [hit] at hk; subst hk
       rw [solve_eq]; simp [Solve.solve, Carried.fresh, loop, faulty, test, quant])
   exact ⟨k, h⟩
+
+/-- a solve that ended without the warning is not changed by a larger iteration limit -/
+theorem solve_limit_mono (step : S → S × Except Exc (List ℝ)) (m b : ℕ) (p : ℝ) (c : Carried ℝ S)
+    (hw : (SolveGen.solve step m p c).warned = false) :
+    SolveGen.solve step (m + b) p c = SolveGen.solve step m p c := by
+  simp only [solve_eq] at hw ⊢
+  simp only [Solve.solve] at hw ⊢
+  have hm : 1 ≤ m := by
+    by_contra h
+    have : m - 1 = 0 := by omega
+    rw [this, loop_zero] at hw
+    simp at hw
+  have e : m + b - 1 = (m - 1) + b := by omega
+  rw [e, loop_add, if_neg (by rw [hw]; simp)]
+
+/-- **abort_then_retry_quiet_eq_fresh_partial** — the clause "once the cause is removed it solves to the same results as a
+    fresh one", under the same two hypotheses: if the repaired unit, solved from the state before the aborted solve
+    (a fresh unit: `c = Carried.fresh s`), ends without the warning, then the repaired unit solved AFTER the abort ends
+    in exactly that carried state (all results, `_old_results`), without warning, and the vectors it compared
+    complete those of the aborted solve to exactly the sequence of the un-aborted one. -/
+theorem abort_then_retry_quiet_eq_fresh_partial (step step' : S → S × Except Exc (List ℝ))
+    (hagree : ∀ s v, (step s).2 = .ok v → step' s = step s) (m m' : ℕ) (p : ℝ) (c : Carried ℝ S) (e : Exc)
+    (he : (SolveGen.solve step m p c).exc = some e)
+    (hunch : ∀ k, k = (SolveGen.solve step m p c).iterations →
+      (step (SolveGen.solve step (k + 1) p c).carried.st).1 = (SolveGen.solve step (k + 1) p c).carried.st)
+    (hq : (SolveGen.solve step' m' p c).warned = false) :
+    (SolveGen.solve step' m' p (SolveGen.solve step m p c).carried).carried = (SolveGen.solve step' m' p c).carried ∧
+    (SolveGen.solve step' m' p (SolveGen.solve step m p c).carried).warned = false ∧
+    (SolveGen.solve step' m' p (SolveGen.solve step m p c).carried).exc = (SolveGen.solve step' m' p c).exc ∧
+    (SolveGen.solve step' m' p c).trace =
+      (SolveGen.solve step' m' p (SolveGen.solve step m p c).carried).trace ++ (SolveGen.solve step m p c).trace := by
+  have hm' : 1 ≤ m' := by
+    by_contra h
+    have h0 : m' - 1 = 0 := by omega
+    rw [solve_eq] at hq
+    simp only [Solve.solve, h0, loop_zero] at hq
+    simp at hq
+  obtain ⟨k, _, h1, h2, h3, h4⟩ := abort_then_retry_eq_fresh_partial step step' hagree m m' hm' p c e he hunch
+  have hmono := solve_limit_mono step' m' k p c hq
+  rw [Nat.add_comm] at hmono
+  rw [hmono] at h1 h2 h3 h4
+  exact ⟨h1, by rw [h2, hq], h3, h4⟩
+
+/-- non-vacuity: `faulty` / `repaired`, limits 100: the retry ends where the fresh repaired unit ends -/
+example : (SolveGen.solve repaired 100 (1 / 1000) (SolveGen.solve faulty 100 (1 / 1000) (Carried.fresh 0)).carried).carried =
+    (SolveGen.solve repaired 100 (1 / 1000) (Carried.fresh 0)).carried := by
+  have he : (SolveGen.solve faulty 100 (1 / 1000) (Carried.fresh 0)).exc = some .zeroDivisionError := by
+    rw [solve_eq]; simp [Solve.solve, Carried.fresh, loop, faulty, test, quant]
+  have hit : (SolveGen.solve faulty 100 (1 / 1000) (Carried.fresh 0)).iterations = 1 := by
+    rw [solve_eq]; simp [Solve.solve, Carried.fresh, loop, faulty, test, quant]
+  exact (abort_then_retry_quiet_eq_fresh_partial faulty repaired
+    (fun s _ h => by
+      unfold faulty at h ⊢
+      unfold repaired
+      by_cases hs : s = 1
+      · simp [hs] at h
+      · simp [hs])
+    100 100 (1 / 1000) (Carried.fresh 0) _ he
+    (fun k hk => by
+      rw [hit] at hk; subst hk
+      rw [solve_eq]; simp [Solve.solve, Carried.fresh, loop, faulty, test, quant])
+    (by rw [solve_eq]; simp [Solve.solve, Carried.fresh, loop, repaired, test, pairs, quant, within_decide])).1
+
+/-- The two theorems above are the provable PART of "a solve aborted by an exception leaves the sequence usable, so that
+    once the cause is removed it solves to the same results as a fresh one": they carry `hunch` (the failing loop body
+    leaves the unit's state where it found it).  The FULL statement, for whatever the failing body does to the state: -/
+def AbortRetryFull : Prop :=
+  ∀ (step step' : ℕ → ℕ × Except Exc (List ℝ)), (∀ s v, (step s).2 = .ok v → step' s = step s) →
+    ∀ (m m' : ℕ) (p : ℝ) (e : Exc), (SolveGen.solve step m p (Carried.fresh 0)).exc = some e →
+      (SolveGen.solve step' m' p (Carried.fresh 0)).warned = false →
+      (SolveGen.solve step' m' p (SolveGen.solve step m p (Carried.fresh 0)).carried).last =
+        (SolveGen.solve step' m' p (Carried.fresh 0)).last
+
+/-- a unit whose first loop body fails AND leaves a trace in the state (state 0 ↦ 1) on which the results depend -/
+def corrupting : ℕ → ℕ × Except Exc (List ℝ) := fun s => if s = 0 then (1, .error .attributeError) else (s, .ok [(s : ℝ)])
+def corruptingRepaired : ℕ → ℕ × Except Exc (List ℝ) := fun s => (s, .ok [(s : ℝ)])
+
+/-- **abort_retry_full_false** — the full statement is false of the loop model: the loop has no means to undo what a failing
+    body did to the unit.  On the code this is finding 1 of notes/C05.md (unrepaired tree: the aborted solve leaves an out
+    profile without `flow_stress`, and the retry fails or differs – corpus case 2 of the harness replays it); on the
+    repaired tree the state the core keeps is covered by `reused_out_profile_up_to_date`, what remains are hook
+    implementations with a memory of their own. -/
+theorem abort_retry_full_false : ¬ AbortRetryFull := by
+  intro h
+  have he : (SolveGen.solve corrupting 100 (1 / 1000) (Carried.fresh 0)).exc = some .attributeError := by
+    rw [solve_eq]; simp [Solve.solve, Carried.fresh, loop, corrupting]
+  have hq : (SolveGen.solve corruptingRepaired 100 (1 / 1000) (Carried.fresh 0)).warned = false := by
+    rw [solve_eq]; simp [Solve.solve, Carried.fresh, loop, corruptingRepaired, test, pairs, quant, within_decide]
+  have := h corrupting corruptingRepaired
+    (fun s _ hs => by
+      unfold corrupting at hs ⊢
+      unfold corruptingRepaired
+      by_cases h0 : s = 0
+      · simp [h0] at hs
+      · simp [h0])
+    100 100 (1 / 1000) _ he hq
+  simp only [solve_eq] at this
+  simp [Solve.solve, Carried.fresh, loop, corrupting, corruptingRepaired, test, pairs, quant, within_decide, Result.last] at this
 
 /-- **no_raise_returns** — a loop body that never raises and always yields vectors of one length (matching a carried
     `_old_results`): `solve` returns a profile, with or without warning. -/
@@ -605,6 +707,52 @@ theorem no_raise_returns (step : S → S × Except Exc (List ℝ)) (n : ℕ)
 
 example : (SolveGen.solve (fun s : ℕ => (s + 1, .ok [(s : ℝ), 1])) 7 (1 / 100) (Carried.fresh 0)).returned = true :=
   (no_raise_returns _ 2 (fun _ => ⟨_, rfl, rfl⟩) 7 _ _ (.inl rfl)).2
+
+/-! ### the out profile of a unit that is solved again (`init_solve`)
+
+The loop theorems above take the loop body as a parameter; what they cannot see is what a body finds in the unit when
+the unit is solved AGAIN.  The one object `init_solve` deliberately keeps is the out profile (the previous results are
+the start values of the next iteration).  Its public entries are modelled by `Solve.handOver` (the `else:` branch of
+`init_solve`, pinned by `loop_shape_as_modelled` / `handsOver_true` and compared entry by entry with the real
+`init_solve` in the correspondence). -/
+
+/-- **reused_out_profile_up_to_date** — WHATEVER an earlier solve left in the out profile (`out` is arbitrary: the
+    results of a completed solve with another incoming profile, the copy of a deficient incoming profile made by a
+    solve that was then aborted, entries the new incoming profile no longer has): after `init_solve` every entry that
+    is not a root hook is exactly what a newly created out profile holds — the value handed over from the new incoming
+    profile, or nothing. -/
+theorem reused_out_profile_up_to_date (roots : List String) (out : Option Entries) (tmpl : Entries) (k : String)
+    (hk : k ∉ roots) :
+    (SolveGen.initOut roots out tmpl).get k = (SolveGen.initOut roots none tmpl).get k ∧
+    (SolveGen.initOut roots none tmpl).get k = tmpl.get k := by
+  cases out with
+  | none => simp [SolveGen.initOut, Solve.initOut]
+  | some o => simp [SolveGen.initOut, reusesOut_true, handsOver_true, Solve.initOut, handOver_get, hk]
+
+/-- non-vacuity: an out profile left by a solve whose incoming profile lacked `flow_stress` and carried `junk` -/
+example : (SolveGen.initOut ["strain", "t"] (some [("t", 5), ("strain", 6), ("junk", 9), ("density", 2)])
+    [("t", 0), ("strain", 1), ("density", 3), ("flow_stress", 4)]) =
+    [("t", 5), ("strain", 6), ("density", 3), ("flow_stress", 4)] := by decide
+
+/-- the policy of the unrepaired code ("re-use as it is", `handsOver = false`) does not have this property: the value
+    of the first solve stays (finding 1 / 2 of notes/C05.md) -/
+example : (Solve.initOut false ["strain"] (some [("strain", 6), ("flow_stress", 100)]) [("strain", 0), ("flow_stress", 80)]).get
+    "flow_stress" = some 100 := by decide
+
+/-- **reused_out_profile_keeps_results** — the root hooks are the other half: a value the previous solve left is kept (it
+    is the start value of the iteration; every loop body re-evaluates it), a missing one is filled from the incoming
+    profile as on creation. -/
+theorem reused_out_profile_keeps_results (roots : List String) (out tmpl : Entries) (k : String) (hk : k ∈ roots) :
+    (∀ v, out.get k = some v → (SolveGen.initOut roots (some out) tmpl).get k = some v) ∧
+    (out.get k = none → (SolveGen.initOut roots (some out) tmpl).get k = (SolveGen.initOut roots none tmpl).get k) := by
+  simp only [SolveGen.initOut, reusesOut_true, handsOver_true, if_true, Solve.initOut]
+  rw [handOver_get, if_pos hk]
+  exact ⟨fun v h => by rw [h], fun h => by rw [h]⟩
+
+example : (SolveGen.initOut ["strain", "t"] (some [("strain", 6)]) [("t", 0), ("strain", 1)]).get "strain" = some 6 ∧
+    (SolveGen.initOut ["strain", "t"] (some [("strain", 6)]) [("t", 0), ("strain", 1)]).get "t" = some 0 :=
+  ⟨(reused_out_profile_keeps_results _ _ _ "strain" (by decide)).1 6 (by decide),
+   by rw [(reused_out_profile_keeps_results _ [("strain", 6)] _ "t" (by decide)).2 (by decide)]; decide⟩
 
 /-! ### sub-units and marks -/
 
